@@ -265,7 +265,7 @@ func (w *World) genUnmark() []Op {
 	if len(c) == 0 {
 		return nil
 	}
-	return []Op{{K: "unmark", A: c[w.c.T.Draw(len(c))].Serial}}
+	return []Op{{K: "unmark", A: c[w.c.T.Draw(len(c))].Serial, B: w.c.T.Draw(2)}}
 }
 
 func (w *World) genProof() []Op {
